@@ -99,7 +99,7 @@ def gen_scenario(seed, profile="general", n_ops=(3, 9)):
         if dst not in fs.files and dst not in fs.dirs:
             fs.files[dst] = fs.files[src]
             hl[dst] = src
-    sc = {"seed": seed, "profile": profile, "hardlinks": hl, "root": rnd.choice(["root", "root", "ro ot", "Rö&t", "ascmhl_x", "media", "100%done", "r%Y_%d"]), "tree": tree_dict(fs), "ops": []}
+    sc = {"seed": seed, "profile": profile, "hardlinks": hl, "root": rnd.choice(["root", "root", "ro ot", "Rö&t", "ascmhl_x", "media", "100%done", "r%Y_%d", "Footage [4K]", "take?*"]), "tree": tree_dict(fs), "ops": []}
     t = 0
     base_now = "2026-03-01 12:00:%02d"
     ops = sc["ops"]
